@@ -83,9 +83,13 @@ def model(cases):
             o = common.driver_run(["past | " + F.to_proto(f)])[0]
             f = F.from_proto(o[3:].split("|", 1)[1].strip())
         c["mf"] = f
-        lines.append(disc.proto_case("ondreset", f, c["data"], c["n"], extra=None).replace(
-            " | %d | " % c["n"], " | %d | %d | " % (c["npre"], c["n"]), 1))
-    return [disc.parse_model(o) for o in common.driver_run(lines)]
+        for cmd in ("ondreset", "ondgenreset"):
+            lines.append(disc.proto_case(cmd, f, c["data"], c["n"], extra=None).replace(
+                " | %d | " % c["n"], " | %d | %d | " % (c["npre"], c["n"]), 1))
+    outs = [disc.parse_model(o) for o in common.driver_run(lines)]
+    for c, g in zip(cases, outs[1::2]):
+        c["m_gen"] = g
+    return outs[0::2]
 
 
 def check_case(ctx, case, m):
@@ -112,6 +116,11 @@ def check_case(ctx, case, m):
             return None, None
         return None, Violation("mirror (initTree/runTree/resetTree) differs from the implementation after reset: " + text, rep,
                                failing_input=False, stream="reset/mirror")
+    g = case.get("m_gen")
+    if g is not None and (g[0] != "ok" or not same_vals(outs_a, g[1])) and not any(x != x for x in outs_a):
+        return None, Violation("the operation classes translated from the source (reset() and update() under the Lean semantics of the "
+                               "Python subset) give %r after reset, the implementation %r: %s" % (g, outs_a, text), rep,
+                               failing_input=False, stream="reset/translated")
     return None, None
 
 
